@@ -39,9 +39,10 @@ type Monitor struct {
 	everNec       map[int]bool // ever became necessary
 	// whether any pass since the last fully successful one failed
 	failedSince     bool
-	Rejected        bool  // some operation so far returned a cycle / height-limit rejection
-	faultedThisPass []int // nodes at which the plan injected a fault that was reached in the current pass
-	Cyclic          bool  // an accepted AddInput made the program cyclic
+	Rejected        bool        // some operation so far returned a cycle / height-limit rejection
+	faultedThisPass []int       // nodes at which the plan injected a fault that was reached in the current pass
+	heightsBefore   map[int]int // C18: heights of the registered nodes before an AddInput between two registered nodes (bind-free programs)
+	Cyclic          bool        // an accepted AddInput made the program cyclic
 	CyclicAt        int
 	deferred        map[int]int // C12: var -> value the mid-pass writes of this pass must leave behind
 	passStart       map[int]int // C12: var values when the pass started
@@ -166,6 +167,26 @@ func (m *Monitor) onAction(a Action) {
 
 // BeforeOp is called before each operation.
 func (m *Monitor) BeforeOp(op Op) {
+	m.heightsBefore = nil
+	if op.K == "AddInput" && m.E.Registered(op.A) && m.E.Registered(op.B) && !m.Cyclic && !m.Rejected {
+		bindFree := true
+		hs := map[int]int{}
+		for id, ref := range m.E.Nodes {
+			if ref == nil {
+				continue
+			}
+			if ref.Kind == "Bind" || ref.Kind == "BindLhs" || ref.Kind == "Sentinel" || ref.Scope >= 0 {
+				bindFree = false
+				break
+			}
+			if !ref.Recycled && m.E.G.Has(ref.INode) {
+				hs[id] = incr.ExpertNode(ref.INode).Height()
+			}
+		}
+		if bindFree {
+			m.heightsBefore = hs
+		}
+	}
 	if op.K == "Stabilize" || op.K == "StabilizeCancelled" || op.K == "ParStabilize" {
 		m.runsThisPass = map[int]int{}
 		m.faultedThisPass = nil
@@ -375,6 +396,48 @@ func (m *Monitor) AfterOp(op Op, s Sample) {
 		}
 		m.Cyclic = true
 		m.CyclicAt = len(e.Ops)
+	}
+	if op.K == "AddInput" && s.Class == "XLimit" && m.heightsBefore != nil && !m.dependsOn(op.B, op.A, map[int]bool{}) {
+		// C18: the height limit is an error only "when that is impossible": raise the dependent above the
+		// new input and everything downstream above it, from the heights the nodes had; if all of that fits
+		// under the limit (heights 0..MaxHeight-1) the rejection was spurious
+		need := map[int]int{}
+		for id, h := range m.heightsBefore {
+			need[id] = h
+		}
+		top := 0
+		work := []int{}
+		if need[op.A] < need[op.B]+1 {
+			need[op.A] = need[op.B] + 1
+			work = append(work, op.A)
+		}
+		for len(work) > 0 {
+			p := work[0]
+			work = work[1:]
+			for id, ref := range e.Nodes {
+				if ref == nil {
+					continue
+				}
+				if _, in := m.heightsBefore[id]; !in {
+					continue
+				}
+				for _, d := range ref.Decl {
+					if d == p && need[id] < need[p]+1 {
+						need[id] = need[p] + 1
+						work = append(work, id)
+					}
+				}
+			}
+		}
+		for _, h := range need {
+			if h > top {
+				top = h
+			}
+		}
+		if top < e.MaxHeight {
+			m.Findings = append(m.Findings, Finding{Prop: "C18", Kind: "spurious-height-limit", Op: len(e.Ops),
+				What: fmt.Sprintf("%s was rejected for the height limit %d although raising the dependents needs no height above %d", op.String(), e.MaxHeight, top)})
+		}
 	}
 	if op.K == "AddInput" && s.Class == "XOk" && !m.Cyclic && !m.Rejected && e.Registered(op.A) {
 		// C18: after a successful link every dependent is strictly above all its inputs
